@@ -531,6 +531,106 @@ def stackLog (u : Cfg) (log : List FEv) : List SEv := liftLog u 0 [] log
 the builder with that strategy and nothing else — no predicate -/
 def shortcut (strat : Strategy) (val : Nat) : Cfg := test strat none val
 
+/-! ## the builder: a chain of setter calls (`FallbackConfigBuilder`, config.rs)
+
+`FallbackLayer::builder()` followed by any number of setter calls and `build()`. There are two
+independent slots: the strategy (written by `value`, `value_fn`, `from_error`, `from_request_error`,
+`service`, `exception` — each documented as "Sets the fallback strategy to …", so the one called LAST
+is in force, with the function IT was given) and the handle predicate (written by `handle`; the last
+one is in force, none if it was never called). No setter touches the other slot; `name` touches
+neither. `build()` panics when no strategy setter was ever called. -/
+
+/-- a strategy together with the user function it was configured with (`FallbackStrategy<Req, Res, E>`) -/
+inductive StrategyFn
+  | value (v : Resp)
+  | valueFn (f : Nat → Resp)
+  | fromError (f : IErr → Resp)
+  | fromReqErr (f : Request → IErr → Resp)
+  | service
+  | exception (f : IErr → IErr)
+
+def StrategyFn.kind : StrategyFn → Strategy
+  | .value _ => .value
+  | .valueFn _ => .valueFn
+  | .fromError _ => .fromError
+  | .fromReqErr _ => .fromReqErr
+  | .service => .service
+  | .exception _ => .exception
+
+/-- the configuration with that strategy in force: its kind and its function (the function fields of the
+other strategies are not read under it: `TR.Props.C17.install_reads_own_function`) -/
+def StrategyFn.install (base : Cfg) : StrategyFn → Cfg
+  | .value v => { base with strat := .value, value := v }
+  | .valueFn f => { base with strat := .valueFn, valueFn := f }
+  | .fromError f => { base with strat := .fromError, fromError := f }
+  | .fromReqErr f => { base with strat := .fromReqErr, fromReqErr := f }
+  | .service => { base with strat := .service }
+  | .exception f => { base with strat := .exception, exception := f }
+
+/-- one call on the builder -/
+inductive Setter
+  | strategy (f : StrategyFn)
+  | handle (p : IErr → Bool)
+  | name
+
+def Setter.isStrategy : Setter → Bool
+  | .strategy _ => true
+  | _ => false
+
+def Setter.isHandle : Setter → Bool
+  | .handle _ => true
+  | _ => false
+
+/-- the two slots of the builder -/
+structure Builder where
+  strategy : Option StrategyFn := none
+  pred : Option (IErr → Bool) := none
+
+def Builder.set (b : Builder) : Setter → Builder
+  | .strategy f => { b with strategy := some f }
+  | .handle p => { b with pred := some p }
+  | .name => b
+
+/-- the builder after a chain of setter calls -/
+def chainBuilder (chain : List Setter) : Builder := chain.foldl Builder.set {}
+
+/-- `build()`: `none` = it panics ("fallback strategy must be set"); `base` supplies what the builder
+does not configure (the readiness scripts of the scripted services) -/
+def Builder.build (base : Cfg) (b : Builder) : Option Cfg :=
+  b.strategy.map fun f => f.install { base with pred := b.pred }
+
+def buildChain (base : Cfg) (chain : List Setter) : Option Cfg := (chainBuilder chain).build base
+
+/-- the strategy setter called last, as a function of the chain alone -/
+def lastStrategy : List Setter → Option StrategyFn
+  | [] => none
+  | .strategy f :: tl => (match lastStrategy tl with | some g => some g | none => some f)
+  | _ :: tl => lastStrategy tl
+
+/-- the handle setter called last -/
+def lastHandle : List Setter → Option (IErr → Bool)
+  | [] => none
+  | .handle p :: tl => (match lastHandle tl with | some q => some q | none => some p)
+  | _ :: tl => lastHandle tl
+
+/-- the harness's setter for one token of `chain=`: a strategy name (`value:<n>` / `value_fn:<n>`: with `n`
+instead of `val`), `h<mask>`, `n` -/
+def parseSetter (val : Nat) (tok : String) : Option Setter :=
+  let name := (tok.splitOn ":").headD ""
+  let v := (((tok.splitOn ":").tail.headD "").toNat?).getD val
+  if name = "value" then some (.strategy (.value (strategyValue v)))
+  else if name = "value_fn" then some (.strategy (.valueFn (strategyValueFn v)))
+  else if name = "from_error" then some (.strategy (.fromError strategyFromError))
+  else if name = "from_request_error" then some (.strategy (.fromReqErr strategyFromReqErr))
+  else if name = "service" then some (.strategy .service)
+  else if name = "exception" then some (.strategy (.exception strategyException))
+  else if name = "n" then some .name
+  else if name.startsWith "h" then (name.drop 1).toNat?.map fun m => .handle (maskPred m)
+  else none
+
+/-- header `chain=<setter>.<setter>.…` -/
+def parseChain (val : Nat) (s : String) : List Setter := (s.splitOn ".").filterMap (parseSetter val)
+
 /-! ## rendering and line protocol -/
 
 def b01 (b : Bool) : Nat := if b then 1 else 0
@@ -658,7 +758,9 @@ def probeStrategy (cfg : Cfg) (rq : Request) (e : IErr) : String :=
 Header keys `via=` / `uvia=` (builder, shortcut constructor, `Default` builder) and the `arrive` options
 `svc=<k>` (which of several services built from the one layer value, or from a clone of it) and
 `reuse=1` (the call is made on the long-lived handle itself) have no meaning for the model: the
-layer keeps nothing per service or per handle, the outcome is the same however it was built. -/
+layer keeps nothing per service or per handle, the outcome is the same however it was built.
+Header key `chain=<setters>`: the layer is built by that sequence of builder calls; the configuration is
+`buildChain` of it (a chain without a strategy setter is ignored, like in the harness). -/
 structure MS where
   sx : Bool
   bx : Bool
@@ -685,8 +787,9 @@ def parseUpper (kv : Kv) : Option Cfg :=
 def machine : Machine where
   σ := MS
   init kv :=
-    let cfg : Cfg := test (parseStrategy (kv.str "strategy" "value")) (kv.optNat "handle") (kv.nat "val" 0)
+    let base : Cfg := test (parseStrategy (kv.str "strategy" "value")) (kv.optNat "handle") (kv.nat "val" 0)
                        (parseReady (kv.str "ready" "")) (parseReady (kv.str "bready" ""))
+    let cfg : Cfg := (buildChain base (parseChain (kv.nat "val" 0) (kv.str "chain" ""))).getD base
     { sx := (kv.get "ready").isSome, bx := (kv.get "bready").isSome, cfg := cfg, up := parseUpper kv }
   step := fun m ws =>
     match ws with
